@@ -2,9 +2,13 @@
 // C32 — signed packets are accepted only if authentic and are safe to inspect.
 // C37 (ordering part) — more_recent_than is a strict total order on (timestamp, payload).
 use vstd::prelude::*;
+use vstd::std_specs::cmp::OrdSpec;
 macro_rules! e { ($($t:tt)*) => { mk_err() }; }
 macro_rules! anyerr { ($($t:tt)*) => { () }; }
+// the one format string of this file: decimal rendering of the two arguments between fixed literals
+macro_rules! format { ("3:seqi{}e1:v{}:", $a:expr, $b:expr) => { fmt_signable_prefix($a, $b) }; }
 verus! {
+//@include shims/std_wide.rs
 pub struct SignedPacketVerifyError;
 #[verifier::external_body] pub fn mk_err() -> SignedPacketVerifyError { SignedPacketVerifyError }
 
@@ -16,7 +20,19 @@ pub struct SignedPacketVerifyError;
 pub uninterp spec fn valid_point(b: Seq<u8>) -> bool;          // 32 bytes that decompress to a curve point
 pub uninterp spec fn dns_parses(b: Seq<u8>) -> bool;           // simple_dns::Packet::parse succeeds
 pub uninterp spec fn ed_valid(pk: Seq<u8>, msg: Seq<u8>, sig: Seq<u8>) -> bool;   // verify_strict accepts
-pub uninterp spec fn signable_spec(ts: u64, v: Seq<u8>) -> Seq<u8>;              // bencoded (seq, v)
+// "3:seqi<a>e1:v<b>:" with a, b in decimal
+pub uninterp spec fn sig_prefix(a: int, b: int) -> Seq<u8>;
+// the signed message: bencoded (seq = timestamp, v = payload)
+pub open spec fn signable_spec(ts: u64, v: Seq<u8>) -> Seq<u8> { sig_prefix(ts as int, v.len() as int) + v }
+pub trait DecArg { spec fn dec(&self) -> int; }
+impl DecArg for u64 { open spec fn dec(&self) -> int { *self as int } }
+impl DecArg for i64 { open spec fn dec(&self) -> int { *self as int } }
+impl DecArg for usize { open spec fn dec(&self) -> int { *self as int } }
+impl DecArg for u32 { open spec fn dec(&self) -> int { *self as int } }
+pub uninterp spec fn str_bytes(s: Seq<char>) -> Seq<u8>;
+#[verifier::external_body]
+pub fn fmt_signable_prefix<A: DecArg, B: DecArg>(a: A, b: B) -> (r: String) ensures str_bytes(r@) == sig_prefix(a.dec(), b.dec()) { unimplemented!() }
+pub assume_specification [String::into_bytes] (s: String) -> (r: Vec<u8>) ensures r@ == str_bytes(s@);
 pub uninterp spec fn be64(b: Seq<u8>) -> u64;                  // big-endian decoding of 8 bytes
 pub broadcast axiom fn be64_injective(a: Seq<u8>, b: Seq<u8>)
     requires a.len() == 8, b.len() == 8
@@ -46,8 +62,12 @@ impl Signature {
     #[verifier::external_body]
     pub fn from_bytes(b: &[u8; 64]) -> (r: Signature) ensures r.b@ == b@ { unimplemented!() }
 }
-#[verifier::external_body]
-pub fn signable(timestamp: u64, v: &[u8]) -> (r: Vec<u8>) ensures r@ == signable_spec(timestamp, v@) { unimplemented!() }
+//@fn iroh-dns/src/pkarr.rs signable props=C32 ret=r
+//@| ensures r@ == signable_spec(timestamp, v@)
+//@rw R18 1
+//@- signable.extend(v);
+//@+ signable.extend_from_slice(v);
+//@end
 pub struct Packet;
 impl Packet {
     #[verifier::external_body]
@@ -75,7 +95,6 @@ pub fn slice_try_into_arr<const N: usize>(s: &[u8]) -> (r: Result<[u8; N], core:
 // a byte slice never has more than isize::MAX elements (Rust allocation invariant)
 pub broadcast axiom fn slice_len_bound(s: &[u8])
     ensures #[trigger] s@.len() <= isize::MAX;
-pub assume_specification<T: Clone> [<[T]>::to_vec] (s: &[T]) -> (r: Vec<T>) ensures r@ == s@;
 
 //@item iroh-dns/src/pkarr.rs struct Timestamp pubfields derive=Clone,Copy
 impl Timestamp {
